@@ -89,7 +89,7 @@ static void set_position(struct context_data *ctx, int pos, int dir)
 
 		p->sequence = seq;
 
-		if (pos >= 0) {
+		if (pos >= 0 && pos < mod->len) {
 			int pat;
 
 			while (has_marker && mod->xxo[pos] == 0xfe) {
@@ -103,6 +103,11 @@ static void set_position(struct context_data *ctx, int pos, int dir)
 					}
 				} else {
 					pos++;
+					if (pos >= mod->len) {
+						/* Markers up to the end of the
+						 * order list: nowhere to go. */
+						return;
+					}
 				}
 			}
 			pat = mod->xxo[pos];
